@@ -27,6 +27,7 @@ func init() {
 		c01AtomicTake(c)
 		c20Snapshot(c, "C01.8b")
 		c01Kind(c)
+		c01SharedFrameReadOnly(c)
 		c01SendWiring(c, "C01.13")
 		lockBalance(c, "C01.14", "engine", "transports")
 		c16Encoded(c)                                                                                // C01.10: the polling batch is encoded as handed over (C16.1)
@@ -461,4 +462,93 @@ func c01Kind(c *core.Ctx) {
 	tw, _ := pkgConstInt(c, "webtransport", "TextMessage")
 	bw, _ := pkgConstInt(c, "webtransport", "BinaryMessage")
 	c.Check(R, "webtransport/TextMessage=1,BinaryMessage=2", token.NoPos, tw == 1 && bw == 2, "constants match gorilla/websocket's")
+}
+
+// c01SharedFrameReadOnly — C01.9b: a pre-encoded frame is shared between sessions and must only be read.
+func c01SharedFrameReadOnly(c *core.Ctx) {
+	const R = "C01.9b"
+	c.Rule(R, "the pre-encoded frame of a packet (Options.WsPreEncodedFrame) is one buffer shared by every recipient of a broadcast: the library only tests it against nil, inspects its dynamic type and takes Bytes() (a non-consuming view handed to NewPreparedMessage), directly or through a local alias; it is never passed to a function, copied from as a reader, or written — draining it (io.Copy / Read / WriteTo) leaves an empty frame for the next recipient")
+	n := 0
+	for _, u := range c.P.Units {
+		if u.Body == nil {
+			continue
+		}
+		info := u.Info()
+		parent := map[ast.Node]ast.Node{}
+		var stack []ast.Node
+		var work []ast.Expr
+		ast.Inspect(u.Body, func(x ast.Node) bool {
+			if x == nil {
+				stack = stack[:len(stack)-1]
+				return true
+			}
+			if fl, isLit := x.(*ast.FuncLit); isLit && fl.Body != u.Body {
+				return false
+			}
+			if len(stack) > 0 {
+				parent[x] = stack[len(stack)-1]
+			}
+			stack = append(stack, x)
+			if se, isSel := x.(*ast.SelectorExpr); isSel && fieldOf(info, se) == "Options.WsPreEncodedFrame" {
+				work = append(work, se)
+			}
+			return true
+		})
+		seen := map[types.Object]bool{}
+		for len(work) > 0 {
+			e := work[0]
+			work = work[1:]
+			n++
+			c.Touch(u)
+			pn := parent[e]
+			if pe, isP := pn.(*ast.ParenExpr); isP {
+				pn = parent[pe]
+			}
+			ok, how := false, "other use"
+			switch pn := pn.(type) {
+			case *ast.BinaryExpr:
+				if (pn.Op == token.EQL || pn.Op == token.NEQ) && (core.IsNil(info, pn.X) || core.IsNil(info, pn.Y)) {
+					ok, how = true, "nil test"
+				}
+			case *ast.TypeAssertExpr:
+				ok, how = true, "dynamic type inspection"
+			case *ast.TypeSwitchStmt:
+				ok, how = true, "dynamic type inspection"
+			case *ast.SelectorExpr:
+				if ce, isC := parent[pn].(*ast.CallExpr); isC && ce.Fun == ast.Expr(pn) {
+					switch pn.Sel.Name {
+					case "Bytes", "Len", "String", "Clone":
+						ok, how = true, pn.Sel.Name+"() (non-consuming)"
+					default:
+						how = pn.Sel.Name + "() may consume or modify the shared buffer"
+					}
+				}
+			case *ast.KeyValueExpr:
+				ok, how = true, "composite literal key"
+			case *ast.AssignStmt:
+				for i, l := range pn.Lhs {
+					if l == e {
+						ok, how = true, "assignment to the field"
+					}
+					if i < len(pn.Rhs) && pn.Rhs[i] == e && len(pn.Lhs) == len(pn.Rhs) {
+						if id, isId := l.(*ast.Ident); isId {
+							if obj := core.ObjOf(info, id); obj != nil && obj.Parent() != nil && obj.Pkg() != nil && obj.Parent() != obj.Pkg().Scope() {
+								ok, how = true, "local alias "+id.Name
+								if !seen[obj] {
+									seen[obj] = true
+									for x := range parent {
+										if uid, isU := x.(*ast.Ident); isU && info.Uses[uid] == obj {
+											work = append(work, uid)
+										}
+									}
+								}
+							}
+						}
+					}
+				}
+			}
+			c.Check(R, keyf("%s/WsPreEncodedFrame:%s", u.Key, how), e.Pos(), ok, "the shared frame is only inspected, never consumed")
+		}
+	}
+	c.Need(R, "uses of Options.WsPreEncodedFrame", n, 2)
 }
